@@ -300,7 +300,16 @@ int simk_pthread_sigmask(int how, const sigset_t *set, sigset_t *old) {
   k->enter_call(K_sigmask);
   if (Fault *f = k->fault_for(K_sigmask)) { k->logrec(K_sigmask, how, 0, 0, f->err, f->err, RF_INJECTED); return f->err; }
   int err = 0;
+  Thread *t = k->cur;
+  uint64_t before = t ? t->mask : 0;
   if (mask_op(how, set, old, &err) < 0) { k->logrec(K_sigmask, how, 0, 0, err, err); return err; }
+  // signals that were pending are delivered the moment they are unblocked: the caller's handler runs inside this call, and
+  // plenty of handlers (a SIGCHLD reaper calling waitpid) leave their own errno behind
+  if (k->w.errno_clobber && t && !t->child && (before & ~t->mask) && k->ch.choose(3) == 0) {
+    static const int leftovers[] = { ECHILD, EINTR, 0, EAGAIN };
+    errno = leftovers[k->ch.choose(4)];
+    k->n_errno_clobbered++;
+  }
   return 0;
 }
 
